@@ -213,6 +213,11 @@ def main(fd, verbose=0):
                     break
                 try:
                     splitted = line.strip().decode("ascii").split(":")
+                    if len(splitted) < 3:
+                        raise ValueError(
+                            f"malformed resource_tracker request {line!r}: "
+                            "expected CMD:NAME:RTYPE"
+                        )
                     # name can potentially contain separator symbols (for
                     # instance folders on Windows)
                     cmd, name, rtype = (
